@@ -202,7 +202,8 @@ def run_c21(ctx, pid):
 
     # 2. behaviours from TLC (real counter width, presets just below the wrap)
     gens = _parallel([
-        lambda: _gen(ctx, "Gen_Router%s.cfg" % t, "Gen_Router", timeout=1500),
+        lambda: _gen(ctx, "Gen_Router%s.cfg" % t, "Gen_Router", timeout=1500) +
+        ([] if q else _gen(ctx, "Gen_Router_hash_t.cfg", "Gen_Router", timeout=1500)),
         lambda: _gen(ctx, "Sim_Router.cfg", "Gen_Router", simulate="num=%d" % (60 if q else 1200)),
         lambda: _gen(ctx, "Gen_RingSys%s.cfg" % t, "Gen_RingSys"),
         lambda: _gen(ctx, "Sim_RingSys.cfg", "Gen_RingSys", simulate="num=%d" % (20 if q else 500)),
@@ -220,6 +221,15 @@ def run_c21(ctx, pid):
     if len(rr) < 500 or len(fo) < 200 or len(hs) < 500 or len(rg) < 500 or min(len(srr), len(shs), len(sfo), len(srg)) < 3:
         raise vlib.Infra("behaviour generation produced too little: %s" % [len(x) for x in gens])
     sampled = False
+    if not q:  # thorough: cap what is replayed on the actor system (about 8 ms per behaviour)
+        if len(rr) > 12000:
+            rr, sampled = ctx.rng.sample(rr, 12000), True
+        if len(fo) > 6000:
+            fo, sampled = ctx.rng.sample(fo, 6000), True
+        if len(hs) > 12000:
+            hs, sampled = ctx.rng.sample(hs, 12000), True
+        if len(rg) > 40000:
+            rg, sampled = ctx.rng.sample(rg, 40000), True
     if q:  # quick: every round-robin history, seed-dependent samples of the (much larger) fan-out / hash sets
         if len(fo) > 500:
             fo, sampled = ctx.rng.sample(fo, 500), True
@@ -271,7 +281,7 @@ def run_c21(ctx, pid):
                 "walks repeated with the default xxh3 hasher; ring: every set/lookup history of the stated depth plus random walks, each with the "
                 "table hasher and the default hasher. Non-trivial = round-robin history that crosses the uint32 wrap or mixes sends with membership "
                 "changes; other strategies: a send plus a routee death/failure/pool adjustment; ring: at least two set calls"
-                % ("; quick tier: seed-dependent sample of the fan-out/hash BFS sets" if sampled else ""),
+                % ("; seed-dependent samples of the larger BFS sets" if sampled else ""),
         "events_validated": rstats["events"] + gstats["events"], "exhaustive_histories_generated": n_exh + len(rg),
         "random_walks": len(srr) + len(shs) + len(sfo) + len(srg), "routed_messages": rstats["sent"],
         "exhaustive": not sampled, "conformance_drift": drift, "ring_prediction_mismatches": gstats["pred_mismatch"],
